@@ -77,6 +77,28 @@ CHECKS = {
              "independence of sampled scalars/generators (formal symbols). Key distribution beyond 'rho contains a fresh uniform term' is not analysed.",
         tech="LLVM-IR symbolic execution over formal discrete logarithms (D-GRP); induction over delegation histories; integer VCs modulo r in z3; native replay",
         ref="5/C11"),
+    "C12": dict(
+        cat="proof",
+        text="encrypt, decrypt and the delegation steps are executed symbolically from the IR over formal discrete logarithms; the decryption residual is a "
+             "polynomial with integer-term coefficients. z3 decides, for all 256-bit attribute values: residual = 0 for matching patterns; 'residual = 0' is "
+             "unsatisfiable together with 'the ciphertext list differs from the key's fixed pattern modulo r in some slot' (other value, extra value in a free "
+             "or hidden slot, missing value; list entries with or without the omit marker); after one qualifykey / nondelegable_qualifykey / adjust_nondelegable "
+             "step with ANY list (including lists that assign the hidden slot) a key hiding slot i neither lists slot i as free nor decrypts a ciphertext with "
+             "slot i set; replacing a, b or c of a ciphertext by an independent element changes the result. Shapes enumerated for l <= 3 (quick) / 4 (thorough).",
+        note="Negative statements are in the generic-group sense (non-zero residual polynomial); values congruent to 0 mod r count as unset. Longer delegation sequences "
+             "with documented lists follow from C11's induction.",
+        tech="LLVM-IR symbolic execution over formal discrete logarithms (D-GRP); satisfiability of residual-coefficient equations modulo r in z3",
+        ref="5/C12"),
+    "C13": dict(
+        cat="proof",
+        text="sign, sign_precomputed, verify, verify_precomputed, precompute are executed symbolically from the IR over formal discrete logarithms; verify's verdict "
+             "becomes a z3 formula over the 256-bit message and attribute values. Positive: valid for every well-formed key (signatures on), every extension list "
+             "using only free slots (entries with/without the omit marker), direct, precomputed and attrs==nullptr forms. Negative (generic-group sense): "
+             "unsatisfiable together with 'message differs mod r', 'a list value differs / is dropped / is added mod r', for a key whose pattern is incompatible "
+             "with the list (hidden slot set, fixed slot with another value), and when a0 or a1 is replaced by an independent element. l <= 3 (quick; negatives l <= 2) / 4.",
+        note="Trusted: group layer specification; C11 for reachability of well-formed keys only.",
+        tech="LLVM-IR symbolic execution over formal discrete logarithms (D-GRP); validity / unsatisfiability of the verification equation modulo r in z3",
+        ref="5/C13"),
     "C14": dict(
         cat="proof",
         text="adjust_precomputed, adjust_nondelegable, precompute and the precomputed/direct forms of encrypt, sign and verify are executed symbolically "
